@@ -172,6 +172,12 @@ def c02(ctx):
     d2, f2, n2 = run_table(ctx, "structured")
     shutil.rmtree(d2, ignore_errors=True)
     run_table(ctx, "types")
+    # growth beyond the listed properties: derived Ord / Eq / Hash, constants, TimeCodeType (never a VIOLATION)
+    dm, fm, nm = run_table(ctx, "misc")
+    growth = sorted({c for p_, c, r in fm if p_ == "GROWTH"})
+    ctx.notes.append("growth table misc: %d rows, findings outside the listed properties: %s" % (nm, growth or "none"))
+    for c in growth:
+        print("NOTE finding outside the listed properties (table misc): %s" % c)
     finish_pure(ctx, "rows: the full accessor vector (26 trait-method results, each call guarded on its own) of every "
                      "triple for raw, structured and third-party implementations, judged against Obs (the MIDI 1.0 "
                      "table in ShortMsg.tla); ShortMessageType <-> u8 for all 256 bytes; controller-number "
